@@ -23,6 +23,8 @@ PROPERTY = "C02"
 RUNS = {"quick": 20_000, "thorough": 20_000_000}
 WALL = {"quick": 50, "thorough": 1500}
 BATCH = {"quick": 250, "thorough": 2000}
+CPU_LIMIT_S = 30          # a generated program is a few hundred deliveries: milliseconds of CPU
+TIMEOUT_SIG = "run-does-not-terminate"
 RULE = (
     "each case is a generated program of 1-5 generator processes built from the three yield forms (bare delay, "
     "delay+events as tuple/list/single event, future) with yield-from nesting, any_of/all_of trees up to depth 2 built at "
